@@ -297,6 +297,9 @@ var documentedMisses = map[string]string{
 	"C07-D": "value-level: a wrong comparison result for particular version strings; no structural rule decides it",
 	"C07-F": "value-level: a wrong comparison result for particular version strings; no structural rule decides it",
 	"C07-I": "value-level: Maven's leading-zero normalisation moved from sub-tokens to raw tokens (rc01 vs rc1); no structural rule decides it",
+	"C07-K": "value-level: PEP 440 local-version segments padded with \"0\" instead of 'more segments is greater'; no structural rule decides it",
+	"C02-K": "resource use: errors chained one by one (quadratic memory in the number of bad tuples); no structural clause of C02 bounds allocation",
+	"C13-L": "a depth counter that is not rebalanced after DecodeElement consumed the end tag: a value-level invariant of the XML token stream",
 	"C02-F": "the panic is raised inside a third-party decoder on a nil argument its contract does not document",
 	"C02-G": "a hang: a deferred wait for a goroutine that blocks on an unbuffered pipe nobody reads any more (liveness, no structural clause decides it)",
 }
